@@ -221,29 +221,33 @@ func c15Mint(c *Ctx) {
 		}
 	}
 	// encrypter
-	encs := callsTo(fn, jose+".NewEncrypter")
+	encs := c.findSteps(fn, jose+".NewEncrypter")
 	if len(encs) != 1 {
 		c.Bad(rule, key+" NewEncrypter", fn.Pos(), "expected one jose.NewEncrypter call, found %d", len(encs))
 		return
 	}
-	enc := encs[0].(*ssa.Call)
+	encS := encs[0]
+	enc := encS.call
 	ce, _ := constString(arg(enc, 0))
 	recOK := false
 	if a, ok := loadAddr(strip(arg(enc, 1))); ok {
 		st := structFieldStores(a)
 		alg, _ := constString(first(st["Algorithm"]))
-		recOK = alg == "dir" && len(st["Key"]) == 1 && isLoadOfGlobal(st["Key"][0], encKey)
+		recOK = alg == "dir" && len(st["Key"]) == 1 && isLoadOfGlobal(c.upIn(encS, st["Key"][0]), encKey)
+	}
+	if ce == "" {
+		ce, _ = constString(c.upIn(encS, arg(enc, 0)))
 	}
 	c.Check(ce == "A128CBC-HS256" && recOK, rule, key+" encrypter", enc.Pos(), "A128CBC-HS256 with direct key UserEncryptionKey (as the verifier's allow-lists)", "the encrypter is not A128CBC-HS256/dir under security.UserEncryptionKey")
 	// signer (optional path)
 	var sig *ssa.Call
-	for _, ci := range callsTo(fn, jose+".NewSigner") {
-		sig = ci.(*ssa.Call)
+	for _, sgS := range c.findSteps(fn, jose+".NewSigner") {
+		sig = sgS.call
 		good := false
 		if a, ok := loadAddr(strip(arg(sig, 0))); ok {
 			st := structFieldStores(a)
 			alg, _ := constString(first(st["Algorithm"]))
-			good = alg == "HS256" && len(st["Key"]) == 1 && isLoadOfGlobal(st["Key"][0], sigKey)
+			good = alg == "HS256" && len(st["Key"]) == 1 && isLoadOfGlobal(c.upIn(sgS, st["Key"][0]), sigKey)
 		}
 		c.Check(good, rule, key+" signer", sig.Pos(), "HS256 under UserSigningKey", "the inner signer is not HS256 under security.UserSigningKey")
 	}
@@ -293,11 +297,14 @@ func c15Mint(c *Ctx) {
 			}
 			switch rn {
 			case joseJWT + ".Encrypted":
-				if strip(arg(root, 0)) != resultOf(enc, 0) {
+				if strip(arg(root, 0)) != resultOf(enc, 0) && c.norm(arg(root, 0)) != resultOf(enc, 0) {
 					good, msg = false, "encrypted builder does not use the configured encrypter"
 				}
 			case joseJWT + ".SignedAndEncrypted":
-				if sig == nil || strip(arg(root, 0)) != resultOf(sig, 0) || strip(arg(root, 1)) != resultOf(enc, 0) {
+				sameAs := func(v ssa.Value, call *ssa.Call) bool {
+					return strip(v) == resultOf(call, 0) || c.norm(v) == resultOf(call, 0)
+				}
+				if sig == nil || !sameAs(arg(root, 0), sig) || !sameAs(arg(root, 1), enc) {
 					good, msg = false, "nested builder does not use the configured signer and encrypter"
 				}
 			default:
@@ -310,7 +317,7 @@ func c15Mint(c *Ctx) {
 		c.Check(good, rule, rk+" token", r.Pos(), "token = encrypted (optionally signed) serialisation of the claims", msg)
 		ok, why := mustPass(fn, r, lenAtLeast(func(v ssa.Value) bool { return isLoadOfGlobal(v, encKey) }, 32))
 		c.Check(ok, rule, rk+" keylen", r.Pos(), "only after len(UserEncryptionKey) >= 32", "token return "+why+" of the key length guard")
-		c.requireChecked(rule, rk+" encrypter-ok", fn, r, enc, 1, "encrypter construction")
+		c.requireStep(rule, rk+" encrypter-ok", fn, r, encS, 1, "encrypter construction")
 	}
 	c.Floor(rule, 8, "encrypter, signer, issuer, expiry, subject, returns")
 }
@@ -430,8 +437,9 @@ func c15HTTP(c *Ctx) {
 	isMethod := func(v ssa.Value) bool { _, f, ok := fieldLoad(strip(v)); return ok && f.Name() == "Method" }
 	isGET := func(v ssa.Value) bool { s, ok := constString(v); return ok && s == "GET" }
 	want := map[string]int64{}
-	for _, ci := range callsTo(fn, "net/http.Error") {
-		code, ok := constInt(arg(ci, 2))
+	for _, he := range c.httpErrors(fn) {
+		ci := he.site
+		code, ok := constInt(he.code)
 		if !ok {
 			c.Undecided(rule, key+" http.Error status", ci.Pos(), "non-constant status")
 			continue
